@@ -63,6 +63,15 @@ def registry_effects(evs):
     return out
 
 
+def absent_in_emitter_map(atom: str, truth) -> bool:
+    """The decided atom says: this watch has no emitter yet (`w in map` false, or `map.get(w) is None` true)."""
+    if re.fullmatch(r".+ in self\._emitter_for_watch", atom):
+        return truth is False
+    if re.fullmatch(r"self\._emitter_for_watch\.get\(.+\) is None", atom):
+        return truth is True
+    return False
+
+
 def net(effects):
     """Net multiset: adds not undone by a later removal of the same (collection, key)."""
     live = []
@@ -215,7 +224,7 @@ def run(ctx) -> None:
             sig = {c for c, k, e in net(registry_effects(p.evs))}
             # what this call must achieve on this path
             conds = p.conds()
-            new_watch = any(a.endswith(" in self._emitter_for_watch") and not t for a, t in conds.items())
+            new_watch = any(absent_in_emitter_map(a, t) for a, t in conds.items())
             required = {
                 "schedule": ({"h", "E", "M", "W"} if new_watch else {"h", "W"}),
                 "add_handler_for_watch": {"h"},
@@ -284,7 +293,7 @@ def run(ctx) -> None:
     for e, held, p in walk_with_locks(paths, lambda s: s):
         if e.kind in ("call", "raised") and (e.extra.get("func", "") == "self._emitter_class"):
             found = True
-            guard = [a for a, t in p.val.items() if re.fullmatch(r".+ in self\._emitter_for_watch", a) and not t]
+            guard = [a for a, t in p.conds().items() if absent_in_emitter_map(a, t)]
             ok = bool(guard) and held.get("self._lock", 0) > 0
             if not ok:
                 break
@@ -310,6 +319,7 @@ VARIANTS = [
     dict(name="B join of an unstarted emitter not tolerated", expect="fire", rule="C13/unstarted-emitters-tolerated", edits=[(API, "        emitter.stop()\n        with contextlib.suppress(RuntimeError):\n            emitter.join()\n\n    def _clear_emitters", "        emitter.stop()\n        emitter.join()\n\n    def _clear_emitters")]),
     dict(name="B hash from the path only", expect="fire", rule="C13/watch-identity", edits=[(API, "        return hash(self.key)\n\n    def __repr__", "        return hash(self.path)\n\n    def __repr__")]),
     dict(name="B empty filter collapses into no filter (watch side only)", expect="fire", rule="C13/watch-identity", edits=[(API, "        self._follow_symlink = follow_symlink\n        self._event_filter = frozenset(event_filter) if event_filter is not None else None", "        self._follow_symlink = follow_symlink\n        self._event_filter = frozenset(event_filter) if event_filter else None")]),
+    dict(name="E emitter creation in a helper guarded by .get()", expect="silent", edits=[(API, "            if watch not in self._emitter_for_watch:\n                emitter = self._emitter_class(self.event_queue, watch, timeout=self.timeout, event_filter=event_filter)\n                if self.is_alive():\n                    emitter.start()\n                self._add_emitter(emitter)\n", "            self._ensure_emitter_for_watch(watch, event_filter)\n"), (API, "    def _clear_emitters(self) -> None:", "    def _ensure_emitter_for_watch(self, watch, event_filter):\n        existing = self._emitter_for_watch.get(watch)\n        if existing is not None:\n            return existing\n        emitter = self._emitter_class(self.event_queue, watch, timeout=self.timeout, event_filter=event_filter)\n        if self.is_alive():\n            emitter.start()\n        self._add_emitter(emitter)\n        return emitter\n\n    def _clear_emitters(self) -> None:")]),
     dict(name="B key drops the filter", expect="fire", rule="C13/watch-identity", edits=[(API, "        return self.path, self.is_recursive, self.event_filter", "        return self.path, self.is_recursive")]),
     dict(name="E registration undone on failure", expect="silent", edits=[(API, "                emitter = self._emitter_class(self.event_queue, watch, timeout=self.timeout, event_filter=event_filter)\n                if self.is_alive():\n                    emitter.start()\n                self._add_emitter(emitter)", "                emitter = self._emitter_class(self.event_queue, watch, timeout=self.timeout, event_filter=event_filter)\n                self._add_emitter(emitter)\n                if self.is_alive():\n                    try:\n                        emitter.start()\n                    except Exception:\n                        del self._emitter_for_watch[emitter.watch]\n                        self._emitters.remove(emitter)\n                        raise")]),
     dict(name="E watch added via set union helper", expect="silent", edits=[(API, "            self._watches.add(watch)\n        return watch", "            self._watches.update((watch,))\n        return watch")]),
